@@ -4,7 +4,7 @@ import re
 import templates as T
 import panic as PN
 import facts as FX
-from facts import tokens, fmt, short, walk, strip_sites
+from facts import tokens, fmt, short, walk, strip_sites, const_int
 
 CRATES = ["sciparse", "scion_stack"]
 EXPLANATION = (
@@ -263,6 +263,128 @@ def run(F, R, tier, cfg):
     c19.depth_rule(F, R)
     meta_rules(F, R)
     peer_cost_rule(F, R)
+    loop_cover_rule(F, R)
+    key_eq_rule(F, R)
+
+
+HAS_LOOPS = "sciparse::scion::path::combinator::has_loops"
+ISEG_EQ = "<sciparse::scion::path::combinator::graph::InputSegment<'a, EntryType> as core::cmp::PartialEq>::eq"
+
+
+def _apply_chain(t, L):
+    """index list an iterator-adaptor chain over the interface list yields for a list of length L; None = unknown adaptor"""
+    t = _nrf(t)
+    if t[0] == "call":
+        nm = t[1]
+        a = t[2]
+        if nm.endswith("::into_iter") or re.search(r"(slice::<impl \[T\]>|Vec<T, A>|Vec::<T, A>)::iter$", nm) or nm.endswith("<impl [T]>::iter"):
+            if "field:interfaces" in tokens(a[0]) and not any(x[0] == "call" and re.search(r"::(skip|step_by|take|filter|rev|chain|skip_while|take_while)$", x[1]) for x in walk(a[0])):
+                return list(range(L))
+            return _apply_chain(a[0], L)
+        if nm.endswith("Iterator::skip") or nm.endswith("Iterator::step_by"):
+            src = _apply_chain(a[0], L)
+            k = _nrf(a[1])[1] if len(a) > 1 and _nrf(a[1])[0] == "lit" and isinstance(_nrf(a[1])[1], int) else None
+            if src is None or k is None:
+                return None
+            return src[k:] if nm.endswith("skip") else (src[::k] if k > 0 else None)
+        if nm.endswith("Iterator::chain"):
+            x, y = _apply_chain(a[0], L), _apply_chain(a[1], L)
+            return None if x is None or y is None else x + y
+        if nm.endswith("Iterator::rev") or nm.endswith("Iterator::by_ref") or nm.endswith("Iterator::enumerate") or nm.endswith("Iterator::peekable"):
+            return _apply_chain(a[0], L)
+    return None
+
+
+def _nrf(t):
+    while isinstance(t, tuple) and t and t[0] in ("ref", "deref"):
+        t = t[2] if t[0] == "ref" else t[1]
+    return t
+
+
+def loop_cover_rule(F, R):
+    """LOOP-cover: "none visiting an AS twice".  has_loops decides from the path's interface list [src_eg, A_in, A_eg, ...,
+    dst_in]: the source AS appears only at index 0, the destination only at the last index, every transit AS at one odd and
+    the following even index.  Whatever the implementation, the set of list positions it reads must contain a representative
+    of every AS on the path; positions are obtained by executing the adaptor chain (iter / skip / step_by / chain) between
+    the list and its consumer on model lists of 2..12 entries.  A scan that leaves index 0 out cannot see a path that
+    returns to its source AS.  If the implementation counts per AS (`entry().or_insert(0) += 1` then `any(count > K)`), K
+    must be 2.  Chains with other adaptors are not decided."""
+    b = F.body(HAS_LOOPS)
+    if b is None:
+        R.anchor_missing(HAS_LOOPS)
+        return
+    R.fn(HAS_LOOPS)
+    consumers = [c for c in b.calls if c.callee and re.search(r"Iterator>?::(next|any|all|fold|try_fold|for_each|find|position|count)$", c.callee)
+                 and c.args and "field:interfaces" in tokens(b.origin(c.args[0]))]
+    if not consumers:
+        R.ob("LOOP-cover", "has_loops: no recognised iterator consumer over the interface list — not decided", True, False)
+        return
+    for c in consumers:
+        chain = strip_sites(b.origin(c.args[0]))
+        verdict = "ok"
+        for L in (2, 4, 6, 8, 10, 12):
+            idx = _apply_chain(chain, L)
+            if idx is None:
+                verdict = "undecided"
+                break
+            s = set(idx)
+            missing = []
+            if 0 not in s:
+                missing.append("source AS (index 0)")
+            if L - 1 not in s:
+                missing.append("destination AS (last index)")
+            for k in range(1, L // 2):
+                if (2 * k - 1) not in s and (2 * k) not in s:
+                    missing.append("transit AS #%d" % k)
+            if missing:
+                verdict = "misses " + ", ".join(missing[:3]) + " on a %d-interface path" % L
+                break
+        ok = not verdict.startswith("misses")
+        R.ob("LOOP-cover", "has_loops reads a representative interface of every AS on the path (%s)" % verdict, ok, verdict == "ok",
+             {"rule": "LOOP-cover", "chain": fmt(chain, 200), "verdict": verdict})
+        if not ok:
+            R.violation("LOOP-cover", HAS_LOOPS + "/cover", "has_loops scans the interface list through %s, which %s: a path visiting that AS "
+                        "twice is not recognised as a loop and is returned by combine" % (fmt(chain, 160), verdict), c.span.loc)
+    # counting form: threshold
+    if any(c.callee and c.callee.endswith("Entry::<'a, K, V, A>::or_insert") for c in b.calls):
+        for c in b.calls:
+            if c.callee and c.callee.endswith("Iterator::any") and "values" in fmt(b.origin(c.args[0]), 200):
+                o = strip_sites(b.origin(c.args[1]))
+                if o[0] == "agg" and o[1][0] == "closure" and F.body(o[1][1]) is not None:
+                    cb = F.body(o[1][1])
+                    cmpk = [(st[2][1], const_int(st[2][3])) for bb in cb.live_blocks() for st in cb.stmts(bb)
+                            if st[0] == "=" and st[2][0] == "bin" and st[2][1] in ("Gt", "Ge")]
+                    ok = cmpk in ([("Gt", 2)], [("Ge", 3)])
+                    R.ob("LOOP-cover", "has_loops: per-AS interface count threshold is > 2", ok, True, {"rule": "LOOP-cover", "cmp": cmpk})
+                    if not ok:
+                        R.violation("LOOP-cover", HAS_LOOPS + "/threshold", "has_loops flags a loop for per-AS interface counts %s instead of > 2 "
+                                    "(an AS contributes at most 2 interfaces to a loop-free path)" % cmpk, c.span.loc)
+
+
+def key_eq_rule(F, R):
+    """KEY-eq: the combinator's edge maps are keyed by InputSegment; `add_directed_edge` inserts one entry per key, so two
+    distinct segments comparing equal collapse into one entry (the first segment with the last edge).  Equality must
+    therefore compare the wrapped PathSegment itself (field 0 of both variants) — the SegmentID covers neither the
+    timestamp nor the peer entries, so a refreshed beacon over the same hops is a different segment with the same id."""
+    cands = F.find_fns(lambda q: re.match(r"<sciparse::scion::path::combinator::graph::InputSegment<.*> as core::cmp::PartialEq>::eq$", q))
+    if len(cands) != 1 or F.body(cands[0]) is None:
+        R.anchor_missing(ISEG_EQ)
+        return
+    b = F.body(cands[0])
+    R.fn(cands[0])
+    for V in ("Core", "NonCore"):
+        ok = False
+        for c in b.calls:
+            if not c.callee or not re.search(r"(::eq|::ptr_eq|::ne)$", c.callee) or len(c.args) < 2:
+                continue
+            l, r = fmt(strip_sites(b.origin(c.args[0])), 200), fmt(strip_sites(b.origin(c.args[1])), 200)
+            if ("param#1 as %s).0" % V) in l and ("param#2 as %s).0" % V) in r or ("param#2 as %s).0" % V) in l and ("param#1 as %s).0" % V) in r:
+                ok = True
+        R.ob("KEY-eq", "InputSegment::eq compares the wrapped segments of two %s keys" % V, ok, True)
+        if not ok:
+            R.violation("KEY-eq", ISEG_EQ + "/" + V, "InputSegment::eq does not compare the wrapped PathSegment of %s keys: two different segments "
+                        "with the same hops (a refreshed beacon, different peer entries) share one edge-map key and add_directed_edge keeps "
+                        "the first segment with the last edge" % V, F.loc(cands[0]))
 
 
 ADD_NC = G + "MultiGraph::<'a, F, EntryType>::add_non_core_segment"
